@@ -295,7 +295,7 @@ parser! {
       / h:hours() { h }
       / m:minutes() { m }
       / s:seconds() { s }
-    rule days() -> DurationLiteral = days:fixed_point() dt_sep("d") { DurationLiteral::days(days) } / days:integer() dt_sep("d") dt_sep("_")? hours:hours() { hours.plus(DurationLiteral::days(days.into())) }
+    rule days() -> DurationLiteral = days:fixed_point() dt_sep("d") {? DurationLiteral::checked_days(days).ok_or("duration") } / days:integer() dt_sep("d") dt_sep("_")? hours:hours() {? DurationLiteral::checked_days(days.into()).and_then(|d| hours.checked_plus(d)).ok_or("duration") }
     rule fixed_point() -> FixedPoint =
       fp:tok(TokenType::FixedPoint) {?
         FixedPoint::parse(fp.text.as_str())
@@ -303,10 +303,10 @@ parser! {
       / i:integer() {?
         Ok(i.into())
     }
-    rule hours() -> DurationLiteral = hours:fixed_point() dt_sep("h") { DurationLiteral::hours(hours) } / hours:integer() dt_sep("h") dt_sep("_")? min:minutes() { min.plus(DurationLiteral::hours(hours.into())) }
-    rule minutes() -> DurationLiteral = min:fixed_point() dt_sep("m") { DurationLiteral::minutes(min) } / mins:integer() dt_sep("m") dt_sep("_")? sec:seconds() { sec.plus(DurationLiteral::minutes(mins.into())) }
-    rule seconds() -> DurationLiteral = secs:fixed_point() dt_sep("s") { DurationLiteral::seconds(secs) } / sec:integer() dt_sep("s") dt_sep("_")? ms:milliseconds() { ms.plus(DurationLiteral::seconds(sec.into())) }
-    rule milliseconds() -> DurationLiteral = ms:fixed_point() dt_sep("ms") { DurationLiteral::milliseconds(ms) }
+    rule hours() -> DurationLiteral = hours:fixed_point() dt_sep("h") {? DurationLiteral::checked_hours(hours).ok_or("duration") } / hours:integer() dt_sep("h") dt_sep("_")? min:minutes() {? DurationLiteral::checked_hours(hours.into()).and_then(|h| min.checked_plus(h)).ok_or("duration") }
+    rule minutes() -> DurationLiteral = min:fixed_point() dt_sep("m") {? DurationLiteral::checked_minutes(min).ok_or("duration") } / mins:integer() dt_sep("m") dt_sep("_")? sec:seconds() {? DurationLiteral::checked_minutes(mins.into()).and_then(|m| sec.checked_plus(m)).ok_or("duration") }
+    rule seconds() -> DurationLiteral = secs:fixed_point() dt_sep("s") {? DurationLiteral::checked_seconds(secs).ok_or("duration") } / sec:integer() dt_sep("s") dt_sep("_")? ms:milliseconds() {? DurationLiteral::checked_seconds(sec.into()).and_then(|s| ms.checked_plus(s)).ok_or("duration") }
+    rule milliseconds() -> DurationLiteral = ms:fixed_point() dt_sep("ms") {? DurationLiteral::checked_milliseconds(ms).ok_or("duration") }
 
     // 1.2.3.2 Time of day and date
     rule time_of_day() -> TimeOfDayLiteral = tok(TokenType::TimeOfDay) tok(TokenType::Hash) d:daytime() { TimeOfDayLiteral::new(d) }
